@@ -42,8 +42,11 @@ ctx.start_page("Tt")
 def pf(name, *args):
     global evaluations
     evaluations += 1
-    with quiet_stdout():
-        return call_parser_function(ctx, name, list(args), lambda x: x)
+    try:
+        with quiet_stdout():
+            return call_parser_function(ctx, name, list(args), lambda x: x)
+    except Exception as ex:      # an escaping exception is a wrong value too (C05 reports it as such)
+        return f"<<raised {type(ex).__name__}>>"
 
 
 # ------------------------------------------------------------------ (1) #expr
